@@ -274,7 +274,7 @@ def global_vars_of(case, cfgdir='<cfgdir>'):
 # ---- tasks ---------------------------------------------------------------------------------------------
 
 EXT = {'dict': 'json', 'list': 'json', 'str': 'json', 'int': 'json', 'numpy': 'npy', 'frame': 'pd',
-       'generator': 'jsonl', 'lazy': 'jsonl', 'gen_empty': 'jsonl', 'list_numpy': None, 'dir': None, 'memory': None}
+       'generator': 'jsonl', 'lazy': 'jsonl', 'gen_empty': 'jsonl', 'list_numpy': None, 'dir': None, 'memory': None, 'continues': None}
 
 
 class MTask:
